@@ -379,13 +379,14 @@ func genBigDead(r *rand.Rand, tier string, idx int) []string {
 	var ops []string
 	emit := func(f string, a ...interface{}) { ops = append(ops, fmt.Sprintf(f, a...)) }
 	v := 1 + r.Intn(3)
+	emit("light")
 	emit("round %d", v)
 	for _, k := range keys {
 		emit("ins 0 %s 41%02x", k, r.Intn(256))
 	}
 	emit("save")
 	versions := []int{v}
-	rounds := 2 + r.Intn(3)
+	rounds := 3 + r.Intn(2)
 	for i := 0; i < rounds; i++ {
 		v += 1 + r.Intn(2)
 		versions = append(versions, v)
@@ -408,7 +409,7 @@ func genBigDead(r *rand.Rand, tier string, idx int) []string {
 		emit("merge 1")
 		emit("save")
 	}
-	pv := versions[1+r.Intn(len(versions)-1)]
+	pv := versions[2+r.Intn(len(versions)-2)]
 	emit("prune %d", pv)
 	for i := range versions {
 		emit("reopen %d", i)
